@@ -20,7 +20,11 @@ CHECKS = {
               "compile_stmt_correct and compile_body_correct (Lemmas/CompileStmt.lean) extend this to statements over scalars: assignment to a local, print/println, "
               "if with and without else, while with any number of iterations (induction on the reference's fuel; forward and backward relative jumps), nested blocks, "
               "and let at the level of the function body: the VM model reaches the end of the generated code in a state that represents the reference's final state, "
-              "with exactly the same bytes written to standard output. Not covered by these theorems (agreement rests on correspondence only): declarations inside nested "
+              "with exactly the same bytes written to standard output. compile_main_correct (Lemmas/CompileMain.lean) closes the loop for whole programs of the form "
+              "fn main() { body; return e } with body in that fragment: if the reference runs the program to a normal exit, then execute - the model of vm_execute: flags, "
+              "__init__ look-up, frame set-up, dispatch loop, OP_RET in the outermost frame - on the module compileProgram builds (the model that is tied byte for byte to "
+              "nano_virt --emit-nvm) ends with VM_OK, has written exactly the reference's output, and leaves main's value, from which the exit status is derived. "
+              "Each of the three theorems is instantiated on a concrete program as non-vacuity check. Not covered by these theorems (agreement rests on correspondence only): declarations inside nested "
               "blocks, break/continue/return/for, calls, global variables, strings and containers. The native back end is not modelled as code: it is represented by Sem's native configuration "
               "(tied in C02) and compared directly with the VM: every program is compiled by nanoc and run and run by nano_virt --run, stdout and exit status must be "
               "equal unless the reference says the run performs a partial operation. VM side tied by byte-identical .nvm files from the front-end models."),
@@ -174,8 +178,11 @@ CHECKS = {
         text=("Lean 4 theorems over the VM heap model (values, cells with counts, allocation-order addresses): recursive vm_release over any "
               "work list keeps count >= in-degree, never touches a dead address and frees only unreferenced objects (release_safe, well-founded "
               "on heap size, fun_induction); vm_retain and allocation keep the invariant (retain_inv, alloc_inv in Lemmas/HeapInv); freed ids are "
-              "never reused (freed_once); instruction-level preservation is proved for POP/GC_RELEASE, DUP and all scalar pushes (pop_ok, dup_ok, "
-              "push_scalar_ok); for the remaining opcodes the invariant is not yet a theorem and is decided per run: the real VM prints its whole "
+              "never reused (freed_once); instruction-level preservation is proved, for operands of any kind and also on stack underflow, for 25 opcodes "
+              "(scalar_fragment_ok: the constants, LOAD_LOCAL, LOAD_GLOBAL, STORE_LOCAL, NEG, NOT, the six comparisons, AND, OR, JMP, JMP_TRUE, JMP_FALSE, "
+              "CAST_BOOL, PRINT, PRINTLN, ASSERT, POP/GC_RELEASE, DUP - from one general lemma, consume_ok: a handler whose new stack and released values "
+              "together reference no address more often than the old stack did keeps the invariant) and for integer arithmetic (arith_int_ok); "
+              "for the remaining opcodes (strings, containers, closures, calls) the invariant is not yet a theorem and is decided per run: the real VM prints its whole "
               "heap (ids, counts, children), stack, globals and frame closures at every instruction boundary, every boundary is audited "
               "(count >= in-degree, no dangling reference, no double free) and compared with the model's boundary, which reproduces every "
               "handler's retain/release. Churn family: live objects after the loop are independent of the iteration count."),
